@@ -237,7 +237,10 @@ def make_singleton_classes(log, tlog):
     B = singleton.TrueSingleton("TB", (A,), {})
     # instances of TC (and of the semi-singleton classes SC, SF) are FALSY objects
     C = singleton.TrueSingleton("TC", (), {"__init__": tinit, "__len__": lambda self: 0})
-    ts = [A, B, C]
+    # TD's metaclass derives from TrueSingleton (a user metaclass combining it with something else)
+    DM = type("DerivedTrueSingleton", (singleton.TrueSingleton,), {})
+    D = DM("TD", (), {"__init__": tinit})
+    ts = [A, B, C, D]
     M0 = singleton.semi_singleton_metaclass()
     M1 = singleton.semi_singleton_metaclass()
     M2 = singleton.semi_singleton_metaclass(hashfunc=lambda args, kwargs: len(args) + len(kwargs))
@@ -247,7 +250,11 @@ def make_singleton_classes(log, tlog):
     S3 = M1("SD", (), {"__init__": init})
     S4 = M2("SE", (), {"__init__": init})
     S5 = M2("SF", (S4,), {"__len__": lambda self: 0})
-    return ts, [S0, S1, S2, S3, S4, S5]
+    # SG's metaclass derives from the generated metaclass M0 (e.g. combined with abc.ABCMeta): it uses M0's instance map
+    import abc
+    DM0 = type("DerivedSemiSingleton", (M0, abc.ABCMeta), {})
+    S6 = DM0("SG", (), {"__init__": init})
+    return ts, [S0, S1, S2, S3, S4, S5, S6]
 
 
 def _byvalue_classes():
